@@ -312,10 +312,10 @@ def run(chk):
         return
     text = ("From Coq Require Import String List Bool.\nFrom VGW Require Import Base.GoStr Model.Json Model.Glob Model.Policy "
             "Check.Common Check.PolicyCheck.\nImport ListNotations.\nOpen Scope string_scope.\n")
-    text += "Definition gcases : list (string * string * bool) :=\n " + coq_list(gterms).replace("; (", ";\n (") + ".\n"
-    text += "Definition vcases : list vcase :=\n " + coq_list(vterms).replace("; {|", ";\n {|") + ".\n"
+    text += common.coq_list_def("gcases", "string * string * bool", gterms, sep=("; (", ";\n ("))
+    text += common.coq_list_def("vcases", "vcase", vterms, per=500, sep=("; {|", ";\n {|"))
     text += "\n".join(docdefs) + "\n"
-    text += "Definition ecases : list ecase :=\n " + coq_list(eterms).replace("; {|", ";\n {|") + ".\n"
+    text += common.coq_list_def("ecases", "ecase", eterms, per=1000, sep=("; {|", ";\n {|"))
     text += ("Definition MG := Eval vm_compute in bad glob_ok gcases.\nPrint MG.\n"
              "Definition MV := Eval vm_compute in bad validate_ok vcases.\nPrint MV.\n"
              "Definition ME := Eval vm_compute in bad verify_ok ecases.\nPrint ME.\n")
